@@ -611,6 +611,8 @@ def check(run, prog):
     # on the spelling
     from .c10 import rule_pop_counts
     rule_pop_counts(run, prog)
+    from .snippet_rules import rule_brace_respelling
+    rule_brace_respelling(run, prog)         # R-12.7
 
 
 def rule_position_caches(run, prog, rid="R-12.6"):
